@@ -29,7 +29,7 @@ func init() {
 		},
 		Run:          runC17,
 		BeatTimeoutS: 60,
-		Required:     []string{"server_splits", "client_splits", "messages_delivered"},
+		Required:     []string{"server_splits", "client_splits", "messages_delivered", "control_payloads_compared_at_the_end"},
 		Assumptions: []string{
 			"exhaustive over split points and the listed buffer sizes for each generated stream; streams are sampled",
 			"the hijacked bufio.Reader wraps the same scripted conn and holds what one transport read returned, as with net/http",
@@ -80,8 +80,9 @@ func runC17(ctx *core.Ctx, out *core.Out) {
 				c, err := u.Upgrade(w, req, nil)
 				d := map[string]interface{}{"side": "server", "split": k, "hijacked_reader_size": bs, "read_buffer_size": rbs, "compression": comp}
 				if err != nil {
-					out.Inconcl(fmt.Sprintf("set-up handshake failed: %v", err))
-					continue
+					// the request is a valid opening handshake: bytes glued behind it must not make it fail
+					fail("handshake-fails-with-early-bytes", fmt.Sprintf("Upgrade of a valid request failed (%v) with %d bytes of the client's frames already in the hijacked buffer", err, k), d)
+					return
 				}
 				if blocking {
 					if !c17ReadBlocking(out, c, nc, exp, st, d, fail) {
@@ -182,8 +183,8 @@ func runC17(ctx *core.Ctx, out *core.Out) {
 			out.Count("client_splits", 1)
 			dd := map[string]interface{}{"side": "client", "cuts": cuts, "read_buffer_size": rbs, "compression": comp}
 			if err != nil {
-				out.Inconcl(fmt.Sprintf("set-up dial failed: %v", err))
-				continue
+				fail2("handshake-fails-with-early-bytes", fmt.Sprintf("Dial failed (%v) although the reply is a valid 101; %d bytes followed it in the same stream", err, len(st2.Bytes)), dd)
+				return
 			}
 			if !c17Read(out, c, exp2, st2, dd, fail2, r.Intn(2)) {
 				return
